@@ -10,7 +10,9 @@ import Driver.Plan
 import Driver.Batch
 import Driver.Middleware
 import Driver.Client
+import Driver.Cache
 import Driver.CliLts
+import Driver.KeyAccess
 open Driver
 
 /-- the handler chain: add one line per driver module. -/
@@ -21,7 +23,9 @@ def handlers : List (String → String → Option String) := [
   handleBatch,
   handleMiddleware,
   handleClient,
-  handleCliLts
+  handleCache,
+  handleCliLts,
+  handleKeyAccess
 ]
 
 def handle (line : String) : String :=
